@@ -430,7 +430,8 @@ LEVEL_TEXT = ("proof, all unbounded (no _bounded_n clause): c18_updp_paths_spec 
               "recorded as known finding, the order-faithful model updp_search reproduces found=False exactly. "
               "Only by correspondence (tie K): that the implementation computes these functions - exhaustive for all "
               "MARKS(n) n<=3 with all option combinations, sampled n=4,5 with all / sampled combinations, random and "
-              "planted graphs n<=8")
+              "planted graphs n<=8"
+              " Tie (T) for the local predicate: translator/predicates.py re-translates the nested _pd_edge of uncovered_pd_path into Gen/Gen_Preds.v on every run; repo_pred_pd_edge(_words, _paths) prove by complete case analysis that on every pair state a PAG can hold (18 of 64) it equals the model's pd_edge (= the wording of the property), with and without force_circle; 256 cells are compared with the real function (through second_node= and through the search) each run (replayable).")
 LEVEL_NOTE = ("the theorems are about the repaired behaviour (fixes/C18-1..6); on the unpatched tree the check reports "
               "VIOLATIONs. Two recorded deviations remain after the patches: uncovered_pd_path incompleteness (needs a "
               "(prev,node)-state search) and discriminating_path accepting a o-> c as 'a is a parent of c' (pinned test "
